@@ -6,7 +6,9 @@ operations. Operations create tracks that SHARE the Obs objects (`+`, extract, s
 (computeAbsCurv, estimate_speed function and method, addAnalyticalFeature(speed | ds), operate(INTEGRATOR),
 operate(DIFFERENTIATOR), Track.length, computeCurvAbsBetweenTwoPoints, getAbsCurv / getSpeed / track[name]),
 evaluate absolute times (isSorted, duration, getT), write user features, and edit positions and timestamp
-FIELDS in place between computations.
+FIELDS in place between computations. Stamps carry a `zone` field ("zones" of the case, default 0; edited in place by
+["et", k, i, "zone", z] and by ["tz", k, z] = track.setTimeZone(z)): the clock readings of a pool merged from loggers set to
+different zones are non-decreasing, `zone` is not read by toAbsTime() / t2 - t1.
 
 The oracle replays the history on its own bookkeeping (current positions / stamps, which names each track
 lists, how many feature slots each observation carries, which of ds / abs_curv / speed were computed from the
